@@ -28,7 +28,7 @@ def run(tier, seed, only=None):
     verdicts = C.Verdicts(PROP)
     g = C.run_tlc("Gen_Project", "Gen_Project_disc", workers=4, timeout=900, heap="8g")
     cases = g.json_lines("REPLAY")
-    if len(cases) < 14000:
+    if len(cases) < 29700:
         raise C.ToolError("too few discovery cases: %d" % len(cases))
     total = len(cases)
     rnd = random.Random(seed)
@@ -38,7 +38,8 @@ def run(tier, seed, only=None):
         pick = []
         rnd.shuffle(cases)
         for c in cases:
-            k = (c["pc"], c["attr"], c["pos"], c["parsable"], c.get("nm", "plain"))
+            k = ((c["pc"], c["attr"], c["pos"], c["parsable"], c.get("nm", "plain")) if c.get("par", "value") == "value"
+                 else ("par", c["attr"], c["pos"], c["par"], c.get("nm", "plain"), c["parsable"]))
             if k not in seenk:
                 seenk.add(k)
                 pick.append(c)
@@ -75,7 +76,7 @@ def run(tier, seed, only=None):
         # attribute to the abstract cases whose function is missing / extra
         txt = str(why)
         import re
-        names = sorted(set(re.findall(r"disc(\d+)", txt)) | set(re.findall(r"sib(\d+)_\d+", txt)))
+        names = sorted(set(re.findall(r"disc_cmd_(\d+)", txt)) | set(re.findall(r"sib(\d+)_\d+", txt)))
         if ev["status"] != "ok" and not names:
             verdicts.reject("layout=%s run=%s" % (ev["layout"], ev["status"]), "no wrappers", "generation failed: %s" % ev["status"], {"case": ev["case"]})
             continue
